@@ -89,7 +89,7 @@ let handle (w : string list) : string =
          | Some c ->
            ("cache lastid=" ^ string_of_z c.k_lastid ^ " delid=" ^ string_of_z c.k_delid)
            :: List.sort compare (List.map (fun (u, p) ->
-                Printf.sprintf "cache user %d %s/%s read=%s recv=%s del=%s" (int_of_n u) (ms p.kp_want) (ms p.kp_given)
+                Printf.sprintf "cache user %d %s/%s read=%s recv=%s del=%s online=0" (int_of_n u) (ms p.kp_want) (ms p.kp_given)
                   (string_of_z p.kp_read) (string_of_z p.kp_recv) (string_of_z p.kp_delid)) c.k_users)
            @ List.sort compare (List.map (fun (sid, u) ->
                 Printf.sprintf "cache sess %s user=%d" (string_of_n sid) (int_of_n u)) c.k_sess)
